@@ -40,7 +40,7 @@ SLOTS = {
     "K1": dict(x="int"), "K2": dict(x="int"),
     "W1": dict(x="int", c="ocfg"), "W2": dict(x="int", c="ocfg"),
     "S2": dict(a="str!", b="str"),
-    "EH": dict(lv="Level", md="oMode", x="int"),
+    "EH": dict(lv="Level", md="oMode", x="int", kd="oEHKind"),
     "TaskSelf": dict(x="int", c="cfg!"),
     "TaskSelfG": dict(x="int", c="cfg!"),
     "Leaf2": dict(i="int!", s="str"),
@@ -98,6 +98,8 @@ class Gen:
             return {"t": "enum", "e": "Shape", "m": r.choice(SHAPES)}
         if kind == "Level":
             return {"t": "enum", "e": "Level", "m": r.choice(["LOW", "HIGH"])}
+        if kind == "EHKind":
+            return {"t": "enum", "e": "EHKind", "m": r.choice(["KA", "KB"])}
         if kind == "Mode":
             return {"t": "enum", "e": "Mode", "m": r.choice(["FAST", "SLOW"])}
         if kind == "path":
